@@ -654,6 +654,13 @@ def r19_9(ctx):
     if sc is not None:
         from rules import cli
         ctx.check(R, not cli.params_handed_on(sc), 'dispatch', 'Sorters::create_fst does not hand the batch to a worker', fn=sc)
+    # options are read under their own names (`min: m.is_present("max")` makes --min sum and --max win twice)
+    from rules import cli as _cli
+    for an in ('cmd::map::Args::new', 'cmd::set::Args::new'):
+        af = b.fn(an)
+        if af is not None:
+            if _cli.flag_names(ctx, R, af) == 0:
+                ctx.undecided(R, 'flag:' + an, 'argument parsing of the command not recognised', fn=af)
     # (e) --max / --min select max / min, the default is +
     ru = b.fn('cmd::map::Args::run_unsorted')
     if ru is not None:
